@@ -9,7 +9,12 @@ STREAMS = {
     'detector': dict(pkg='./cmd/detector', overlay={'motion/zz_verif_motion.go': 'motion/zz_verif_motion.go'}),
     'fs': dict(daemon='./cmd/thermal-recorder', strace=True,
                overlay={'cmd/thermal-recorder/zz_verif_main.go': 'thermal-recorder/zz_verif_main.go',
-                        'cmd/thermal-recorder/zz_verif_fs.go': 'thermal-recorder/zz_verif_fs.go'}),
+                        'cmd/thermal-recorder/zz_verif_fs.go': 'thermal-recorder/zz_verif_fs.go',
+                        'cmd/thermal-recorder/zz_verif_e2e.go': 'thermal-recorder/zz_verif_e2e.go'}),
+    'e2e': dict(daemon='./cmd/thermal-recorder',
+                overlay={'cmd/thermal-recorder/zz_verif_main.go': 'thermal-recorder/zz_verif_main.go',
+                         'cmd/thermal-recorder/zz_verif_fs.go': 'thermal-recorder/zz_verif_fs.go',
+                         'cmd/thermal-recorder/zz_verif_e2e.go': 'thermal-recorder/zz_verif_e2e.go'}),
     'writer': dict(daemon='./cmd/thermal-writer', overlay={'cmd/thermal-writer/zz_verif_writer.go': 'thermal-writer/zz_verif_writer.go'}),
     'loglimiter': dict(pkg='./cmd/loglimiter', overlay={'loglimiter/zz_verif_loglimiter.go': 'loglimiter/zz_verif_loglimiter.go'}),
 }
@@ -28,6 +33,12 @@ PROC_ASSUME = {
 
 DET_RULE = 'paired streams for two detectors in lockstep over small resolutions (3x3..10x8, one 160x120), pixel values at threshold / delta / count boundaries, kinds: plain (C07 spec), border and cold pairs (C08), FFC periods of length 1..gap+3 with times at 10s-1ns/10s/10s+1ns (C09a), pairs differing only before an FFC period or a reset (C09b/c), dynamic-threshold scenes with bounds unset/set and the mean below/inside/above (C15); non-trivial = motion reported on some but not all frames; distinct by op text'
 DET_TRUSTED = ['overlay accessors VerifThresh / VerifBackground / VerifFFCPeriodNs read unexported detector state', "IEEE arithmetic: the driver instantiates FloatOps with Lean's Float32/Float (bit-identical with Go on amd64 in every run so far); theorems hold for every FloatOps instance"]
+
+E2E_RULE = ('generated config.toml (min/max/preview secs, trigger frames, motion overrides, throttler on/off, window set/open, disk gate, constant recorder, device, location) read by the real '
+            'ParseConfig + a generated socket byte stream (YAML header from the real encoder, Boson frames of 5x6..10x8 and Lepton 160x120 frames with telemetry, clear markers, bad frames, '
+            'test-recording requests, optional cut inside the last item) written in random segments through net.Pipe into the real handleConn; every finished file decoded with the '
+            'standard reader and compared field by field and pixel by pixel with the composed model; non-trivial = at least one finished file; distinct by op text')
+E2E_TRUSTED = ['overlay harness in package main of cmd/thermal-recorder (init() hijack); window clock injected through Window.Now', 'D-Bus calls fail fast in the sandbox']
 
 PROPS = {
     'C19': dict(
@@ -143,6 +154,30 @@ PROPS = {
                  'overlay harness injected into package main of cmd/thermal-recorder (init() hijack under VERIF_HARNESS)'],
         assumptions=['time stamps of recordings in one directory are pairwise distinct (enforced by the F9 fix)', 'constant-recordings/ is not the output directory proper'],
     ),
+    'C14': dict(
+        lean=['Props.C14', 'Props.FactsWiring'],
+        streams=['e2e'],
+        rule=E2E_RULE,
+        trusted=E2E_TRUSTED + ['yaml.v1 (camera header): the model uses a decoder for the image of the encoder on flat maps, validated against the real decoder'],
+        assumptions=['frames do not begin with the bytes "clear" (indistinguishable from the marker in the wire format itself)', 'frame size >= 5'],
+    ),
+    'C11': dict(
+        lean=['Props.C11', 'Props.FactsWiring', 'Props.FactsProc'],
+        streams=['e2e'],
+        rule=E2E_RULE,
+        trusted=E2E_TRUSTED + ['go-cptv compression + gzip: validated by decoding every produced file with the standard reader, not proved'],
+        assumptions=['in-range settings (fps, preview-secs < 256; strings <= 255 bytes; motion YAML <= 255 bytes)', 'throttle refill disabled in e2e runs (min-refill 100 h, real clock)'],
+    ),
+    'C18': dict(
+        lean=['Props.C18', 'Props.FactsWiring'],
+        streams=['writer'],
+        rule='socket byte streams (YAML header + frames of 1 B .. 39 KiB, 0..700 frames, optionally cut inside the last frame) written in random segments with stalls, '
+             'GOMAXPROCS 1/2/4/16, through net.Pipe into the real thermal-writer handleConn + writer goroutines; the file is read back byte for byte; '
+             'non-trivial = at least one frame; distinct by op text',
+        trusted=['Go channel semantics and scheduler are modelled (transition system), not verified', 'overlay harness in package main of cmd/thermal-writer',
+                 'file roll-over after one minute is not exercised in the quick tier'],
+        assumptions=['frame streams without the clear marker (thermal-writer does not recognise it: observation in DESIGN.md)'],
+    ),
 }
 
 NOT_APPLICABLE = {}
@@ -221,6 +256,21 @@ MANIFEST_TEXT = {
         note=_COMMON_NOTE + 'process kill only, no power-loss durability; the kernel rename/unlink atomicity and strace are trusted; gzip/CPTV codec validated by decoding, not proved.',
         technique='Lean 4 proof (invariant over operation boundaries + all prefixes of the step lists; glob matcher lemmas) + differential correspondence under strace',
         design_ref='DESIGN.md 5/C10'),
+    'C14': dict(
+        text='Theorems over the byte-level socket model: the header text before the blank line is returned exactly and nothing beyond it is consumed; every proper prefix of header + blank line is an error; for every frame size >= 5 and every list of frames/markers the frame loop returns exactly that list (each item once, in order, alignment never lost); a stream cut inside an item yields the complete items before it, then truncation. Facts: both daemons use the same marker, the probe length equals the marker length, header keys agree. The real ReadHeaderInfo/handleConn are exercised end to end with random read segmentations.',
+        note=_COMMON_NOTE + 'see trusted base in the evidence file.',
+        technique='Lean 4 proof (induction / invariants over byte lists and transition systems) + differential correspondence end to end',
+        design_ref='DESIGN.md 5/C14'),
+    'C11': dict(
+        text='Theorems: Lepton telemetry times fit the 32-bit millisecond fields and survive ms<->ns conversion, sub-millisecond parts would be lost (never produced), pixels are 16-bit, one-byte header fields survive iff < 256, rejected frames are never accepted by the composed pipeline. The composition socket -> parser -> detector -> processor -> throttle -> files is an executable model whose files (header fields, background, every frame pixel for pixel with telemetry) are compared with the files the real daemon writes for generated config.toml + socket bytes, decoded by the standard reader.',
+        note=_COMMON_NOTE + 'see trusted base in the evidence file.',
+        technique='Lean 4 proof (induction / invariants over byte lists and transition systems) + differential correspondence end to end',
+        design_ref='DESIGN.md 5/C11'),
+    'C18': dict(
+        text='Theorems: decodeFile(encodeFile h frames) = (header fields, frames) for all headers and frames < 2^32 bytes (magic, version, H section, field table, F sections with length field); for EVERY interleaving of the reader/writer transition system with a pool of cap buffers and two channels of capacity cap: written frames are a prefix of the input, buffer ids stay distinct (no aliasing of a buffer being filled with one queued or being written), sends never block, progress, and when the file is closed everything received has been written. The real handleConn/writer pair is run on generated streams and its file compared byte for byte with the model encoding.',
+        note=_COMMON_NOTE + 'see trusted base in the evidence file.',
+        technique='Lean 4 proof (induction / invariants over byte lists and transition systems) + differential correspondence end to end',
+        design_ref='DESIGN.md 5/C18'),
     'C19': dict(
         text='Theorems for every capacity >= 1 and every operation sequence: GetHistory/Oldest/CopyRecent of the FrameLoop model equal a '
              'three-line list specification (refinement through a ghost state, proved by induction over the operation list); the model is '
